@@ -418,6 +418,8 @@ func (s *Server) attachClient(cl *Client, listener string) error {
 	s.Listeners.ClientsWg.Add(1)
 	s.closing.RUnlock()
 	defer s.Listeners.ClientsWg.Done()
+	verifPoint("attach.handler_registered", "")
+	defer verifPoint("attach.handler_return", "")
 
 	go cl.WriteLoop()
 	defer cl.Stop(nil)
